@@ -44,7 +44,9 @@ def gen_history(H):
     probs = []
     for i in range(nprob):
         k = H.weighted([("so", 3), ("mo_list", 2), ("mo_bool", 1), ("mo_agg", 1)])
-        probs.append({"kind": k, "minimize": [bool(H.draw(2)) for _ in range(3)], "k": 2 + H.draw(2), "reuse_buffer": bool(H.draw(3) == 2)})
+        probs.append({"kind": k, "minimize": [bool(H.draw(2)) for _ in range(3)], "k": 2 + H.draw(2), "reuse_buffer": bool(H.draw(3) == 2),
+                      # the form in which a multi-objective fitness function hands back its components (any iterable of numbers)
+                      "returns": H.pick(["list", "list", "tuple", "generator", "map", "ndarray"])})
         # several live problems may be built over the SAME fitness-function object (other direction / other aggregate)
         mates = [j for j in range(i) if (probs[j]["kind"] == "so") == (k == "so")]
         if mates and H.draw(2):
@@ -52,10 +54,11 @@ def gen_history(H):
             probs[i]["shares_ff_with"] = probs[j].get("shares_ff_with", j)
             probs[i]["k"] = probs[j]["k"]
             probs[i]["reuse_buffer"] = probs[j]["reuse_buffer"]
-    n_ind = 1 + H.draw(12)
+            probs[i]["returns"] = probs[j]["returns"]
+    n_ind = 1 + H.draw(12) if H.draw(4) else 9 + H.draw(24)
     calls = []
     for _ in range(1 + H.draw(8)):
-        size = 1 + H.draw(min(n_ind, 8))
+        size = 1 + H.draw(min(n_ind, 8)) if H.draw(4) else 1 + H.draw(n_ind)
         members = [H.draw(n_ind) for _ in range(size)]
         calls.append({"problem": H.draw(nprob), "members": members,
                       "via": H.weighted([("evaluator", 4), ("tracker", 2), ("population", 1), ("step", 2), ("default_tracker", 2), ("gp", 2)])})
@@ -99,8 +102,18 @@ class Exec:
 
         buf = [0.0] * p["k"]
 
-        def ffm(prog, k=p["k"], reuse=p.get("reuse_buffer")):
+        def ffm(prog, k=p["k"], reuse=(p.get("reuse_buffer") and p.get("returns", "list") == "list"), form=p.get("returns", "list")):
             log.append((cur[0], prog.v, prog))
+            if form == "tuple":
+                return tuple(f_of(prog.v, j) for j in range(k))
+            if form == "generator":
+                return (f_of(prog.v, j) for j in range(k))
+            if form == "map":
+                return map(lambda j: f_of(prog.v, j), range(k))
+            if form == "ndarray":
+                import numpy as np
+
+                return np.array([f_of(prog.v, j) for j in range(k)])
             if reuse:
                 # a fitness function that fills and returns the same list object every time
                 for j in range(k):
